@@ -1,1 +1,1454 @@
-// shared module (stub)
+// wire -- INDEPENDENT structural readers for BGP, BMP, MRT and RTR bytes.
+//
+// Written from the RFCs (section numbers at each reader), std only, no types of
+// the packet crate: compiles as `mod wire` of hx and inside the daemon crate.
+// Every reader takes arbitrary bytes, returns Result<_, String> with a precise
+// message and never panics (all access goes through the bounds-checked `Rd`).
+// All offsets (`off`, `Span.off`, `FieldRef.off`) are relative to the start of
+// the buffer handed to the reader unless stated otherwise.
+//
+// ---------------------------------------------------------------------------
+// PUBLIC API (summary)
+// ---------------------------------------------------------------------------
+// Common
+//   struct Span { off, len }   .end()  .of(buf) -> &[u8]
+//   struct FieldRef { off, width, kind: FieldKind }   a length / type / flag field
+//   enum FieldKind { .. }      what the field is (C03 mutation menu)
+// BGP (RFC 4271 §4, RFC 4760 §3-4, RFC 5492 §4, RFC 9072 §2, RFC 2918 §3, RFC 7313)
+//   split_stream(buf) -> Result<Vec<Span>, String>           frames by header length
+//   read_frame(buf, max_len) -> Result<Frame, String>        one frame at buf[0..]
+//       Frame { len, msg_type, body: Body, fields: Vec<FieldRef> }
+//       Body::Open(OpenBody{version, my_as, hold, id, opt_len, extended, params, caps})
+//       Body::Update(UpdateBody{withdrawn, attr_block, nlri, attrs, mp_reach, mp_unreach})
+//       Body::Notification{code, subcode, data}  Body::Keepalive
+//       Body::RouteRefresh{afi, subtype, safi}
+//   walk_attrs(buf, block: Span) -> Result<(Vec<Attr>, Vec<FieldRef>), String>
+//   parse_mp_reach / parse_mp_unreach(buf, &Attr)            MP attribute bodies
+//   enum NlriKind { Ipv4, Ipv6, LabeledV4, LabeledV6, VpnV4, VpnV6, Evpn, Rtc }
+//   nlri_kind(afi, safi) -> Option<NlriKind>
+//   enum LabelMode { BosTerminated, Fixed3 };  struct NlriOpts { addpath, labels }
+//       NlriOpts::reach(addpath) / NlriOpts::withdraw(addpath)
+//   walk_nlri(kind, opts, buf, span) -> Result<Vec<NlriItem>, String>
+//       NlriItem { span, path_id, len_field, labels, rd, prefix_bits, prefix, evpn_type, fields }
+//   update_nlri_fields(buf, &Frame, addpath) -> Result<Vec<FieldRef>, String>
+//   walk_tlvs(buf, span, type_width, len_width, kind_t, kind_l) -> Result<Vec<Tlv>, String>
+//       generic TLV stream (LS: 2/2, prefix-SID: 1/2, tunnel-encap outer: 2/2)
+// BMP (RFC 7854 §4, RFC 8671 §4, RFC 9069 §4)
+//   read_bmp(buf) -> Result<BmpMsg, String>                  one message at buf[0..]
+// MRT (RFC 6396 §2-4, RFC 8050 §3-4)
+//   read_mrt(buf) -> Result<MrtRecord, String>               one record at buf[0..]
+// RTR (RFC 6810 §5, RFC 8210 §5, draft-ietf-sidrops-8210bis for version 2)
+//   read_rtr(buf) -> Result<RtrPdu, String>                  one PDU at buf[0..]
+//   rtr_fixed_len(version, pdu_type) -> Option<u32>
+// ---------------------------------------------------------------------------
+
+#[derive(Clone, Copy, Debug, PartialEq, Eq, Hash, Default)]
+pub struct Span {
+    pub off: usize,
+    pub len: usize,
+}
+
+impl Span {
+    pub fn new(off: usize, len: usize) -> Span {
+        Span { off, len }
+    }
+    pub fn end(&self) -> usize {
+        self.off.saturating_add(self.len)
+    }
+    /// the bytes of this span, or an empty slice if it does not fit `buf`
+    pub fn of<'a>(&self, buf: &'a [u8]) -> &'a [u8] {
+        buf.get(self.off..self.end()).unwrap_or(&[])
+    }
+}
+
+#[derive(Clone, Copy, Debug, PartialEq, Eq, Hash, PartialOrd, Ord)]
+pub enum FieldKind {
+    // header
+    Marker,
+    HeaderLen,
+    MsgType,
+    // OPEN
+    OpenVersion,
+    OpenAs,
+    OpenHold,
+    OpenId,
+    OpenOptLen,
+    /// RFC 9072: the 255 "non-ext OP type" byte
+    OpenExtMarker,
+    OpenExtOptLen,
+    OptParamType,
+    OptParamLen,
+    CapCode,
+    CapLen,
+    /// a length byte inside a capability value (FQDN host / domain length)
+    CapInnerLen,
+    // UPDATE
+    WithdrawnLen,
+    TotalAttrLen,
+    AttrFlags,
+    AttrType,
+    AttrLen,
+    AttrExtLen,
+    MpAfi,
+    MpSafi,
+    MpNhLen,
+    MpReserved,
+    // NLRI
+    NlriPathId,
+    /// the prefix / NLRI bit-length byte
+    NlriLen,
+    /// third byte of a label (carries the bottom-of-stack bit)
+    LabelBos,
+    EvpnRouteType,
+    EvpnRouteLen,
+    // NOTIFICATION / ROUTE-REFRESH
+    NotifCode,
+    NotifSubcode,
+    RrAfi,
+    RrSubtype,
+    RrSafi,
+    // generic TLV streams
+    TlvType,
+    TlvLen,
+    // BMP
+    BmpVersion,
+    BmpLen,
+    BmpType,
+    BmpPeerType,
+    BmpPeerFlags,
+    BmpReason,
+    BmpTlvType,
+    BmpTlvLen,
+    // MRT
+    MrtType,
+    MrtSubtype,
+    MrtLen,
+    MrtAfi,
+    MrtCount,
+    MrtPeerType,
+    MrtAttrLen,
+    MrtPrefixLen,
+    MrtViewNameLen,
+    // RTR
+    RtrVersion,
+    RtrType,
+    RtrLen,
+    RtrInnerLen,
+}
+
+#[derive(Clone, Copy, Debug, PartialEq, Eq, Hash)]
+pub struct FieldRef {
+    pub off: usize,
+    pub width: usize,
+    pub kind: FieldKind,
+}
+
+fn fr(off: usize, width: usize, kind: FieldKind) -> FieldRef {
+    FieldRef { off, width, kind }
+}
+
+/// Bounds-checked big-endian reader over `buf[..end]`.
+struct Rd<'a> {
+    buf: &'a [u8],
+    pos: usize,
+    end: usize,
+    what: &'static str,
+}
+
+impl<'a> Rd<'a> {
+    fn new(buf: &'a [u8], span: Span, what: &'static str) -> Result<Rd<'a>, String> {
+        if span.end() > buf.len() || span.off > buf.len() {
+            return Err(format!("{what}: span {}+{} exceeds buffer of {}", span.off, span.len, buf.len()));
+        }
+        Ok(Rd { buf, pos: span.off, end: span.end(), what })
+    }
+    fn left(&self) -> usize {
+        self.end - self.pos
+    }
+    fn need(&self, n: usize, field: &str) -> Result<(), String> {
+        if self.left() < n {
+            Err(format!("{}: truncated at offset {}: need {} byte(s) for {}, {} left", self.what, self.pos, n, field, self.left()))
+        } else {
+            Ok(())
+        }
+    }
+    fn u8(&mut self, field: &str) -> Result<u8, String> {
+        self.need(1, field)?;
+        let v = self.buf[self.pos];
+        self.pos += 1;
+        Ok(v)
+    }
+    fn u16(&mut self, field: &str) -> Result<u16, String> {
+        self.need(2, field)?;
+        let v = u16::from_be_bytes([self.buf[self.pos], self.buf[self.pos + 1]]);
+        self.pos += 2;
+        Ok(v)
+    }
+    fn u32(&mut self, field: &str) -> Result<u32, String> {
+        self.need(4, field)?;
+        let b = &self.buf[self.pos..self.pos + 4];
+        self.pos += 4;
+        Ok(u32::from_be_bytes([b[0], b[1], b[2], b[3]]))
+    }
+    fn u64(&mut self, field: &str) -> Result<u64, String> {
+        let hi = self.u32(field)? as u64;
+        let lo = self.u32(field)? as u64;
+        Ok(hi << 32 | lo)
+    }
+    fn take(&mut self, n: usize, field: &str) -> Result<Span, String> {
+        self.need(n, field)?;
+        let s = Span::new(self.pos, n);
+        self.pos += n;
+        Ok(s)
+    }
+    fn bytes(&mut self, n: usize, field: &str) -> Result<&'a [u8], String> {
+        let s = self.take(n, field)?;
+        Ok(&self.buf[s.off..s.end()])
+    }
+    fn rest(&mut self) -> Span {
+        let s = Span::new(self.pos, self.end - self.pos);
+        self.pos = self.end;
+        s
+    }
+}
+
+// ===========================================================================
+// BGP
+// ===========================================================================
+
+pub const BGP_HEADER_LEN: usize = 19;
+pub const MSG_OPEN: u8 = 1;
+pub const MSG_UPDATE: u8 = 2;
+pub const MSG_NOTIFICATION: u8 = 3;
+pub const MSG_KEEPALIVE: u8 = 4;
+pub const MSG_ROUTE_REFRESH: u8 = 5;
+
+pub const ATTR_FLAG_OPTIONAL: u8 = 0x80;
+pub const ATTR_FLAG_TRANSITIVE: u8 = 0x40;
+pub const ATTR_FLAG_PARTIAL: u8 = 0x20;
+pub const ATTR_FLAG_EXTENDED: u8 = 0x10;
+pub const ATTR_MP_REACH: u8 = 14;
+pub const ATTR_MP_UNREACH: u8 = 15;
+
+/// RFC 4271 §4.1: split a byte stream into frames by the length field.  Only
+/// the length is looked at (19..=65535, must fit); use `read_frame` per frame.
+pub fn split_stream(buf: &[u8]) -> Result<Vec<Span>, String> {
+    let mut out = Vec::new();
+    let mut pos = 0usize;
+    while pos < buf.len() {
+        if buf.len() - pos < BGP_HEADER_LEN {
+            return Err(format!("stream: {} trailing byte(s) at offset {pos}, shorter than a BGP header", buf.len() - pos));
+        }
+        let len = u16::from_be_bytes([buf[pos + 16], buf[pos + 17]]) as usize;
+        if len < BGP_HEADER_LEN {
+            return Err(format!("stream: frame at offset {pos} has length field {len} < 19"));
+        }
+        if len > buf.len() - pos {
+            return Err(format!("stream: frame at offset {pos} has length field {len} but only {} byte(s) follow", buf.len() - pos));
+        }
+        out.push(Span::new(pos, len));
+        pos += len;
+    }
+    Ok(out)
+}
+
+#[derive(Clone, Debug)]
+pub struct Frame {
+    /// value of the header length field = size of the frame
+    pub len: usize,
+    pub msg_type: u8,
+    pub body: Body,
+    /// every length field and type / flag byte of the frame (NLRI-level fields:
+    /// see `update_nlri_fields`, they depend on the add-path setting)
+    pub fields: Vec<FieldRef>,
+}
+
+#[derive(Clone, Debug)]
+pub enum Body {
+    Open(OpenBody),
+    Update(UpdateBody),
+    Notification { code: u8, subcode: u8, data: Span },
+    Keepalive,
+    /// RFC 2918 §3 / RFC 7313 §3.2: AFI(2), message subtype (was "reserved")(1), SAFI(1)
+    RouteRefresh { afi: u16, subtype: u8, safi: u8 },
+}
+
+#[derive(Clone, Debug)]
+pub struct OpenBody {
+    pub version: u8,
+    pub my_as: u16,
+    pub hold: u16,
+    pub id: u32,
+    /// the one-byte Opt Parm Len field as found (255 when RFC 9072 is in use)
+    pub opt_len: u8,
+    /// RFC 9072 extended optional parameters length / format in use
+    pub extended: bool,
+    pub params: Vec<OptParam>,
+    /// capabilities of all type-2 parameters, in order
+    pub caps: Vec<Cap>,
+}
+
+#[derive(Clone, Debug)]
+pub struct OptParam {
+    pub off: usize,
+    pub typ: u8,
+    pub value: Span,
+}
+
+#[derive(Clone, Debug)]
+pub struct Cap {
+    pub off: usize,
+    pub code: u8,
+    pub value: Span,
+}
+
+#[derive(Clone, Debug)]
+pub struct UpdateBody {
+    pub withdrawn: Span,
+    pub attr_block: Span,
+    pub nlri: Span,
+    pub attrs: Vec<Attr>,
+    pub mp_reach: Option<MpReach>,
+    pub mp_unreach: Option<MpUnreach>,
+}
+
+#[derive(Clone, Debug)]
+pub struct Attr {
+    /// offset of the flags byte
+    pub off: usize,
+    pub flags: u8,
+    pub code: u8,
+    /// extended-length bit set (2-byte length)
+    pub ext: bool,
+    pub value: Span,
+}
+
+impl Attr {
+    /// whole attribute including its header
+    pub fn span(&self) -> Span {
+        Span::new(self.off, self.value.end() - self.off)
+    }
+}
+
+#[derive(Clone, Debug)]
+pub struct MpReach {
+    /// index into UpdateBody.attrs
+    pub attr_index: usize,
+    pub afi: u16,
+    pub safi: u8,
+    pub nh_len: u8,
+    pub nexthop: Span,
+    pub reserved: u8,
+    pub nlri: Span,
+}
+
+#[derive(Clone, Debug)]
+pub struct MpUnreach {
+    pub attr_index: usize,
+    pub afi: u16,
+    pub safi: u8,
+    pub nlri: Span,
+}
+
+/// RFC 4271 §4.1: read the frame that starts at buf[0].  `max_len` is the
+/// negotiated maximum message size (4096, or 65535 with RFC 8654).  Bytes after
+/// the frame are ignored.  Strict: any inconsistency between length fields, an
+/// unknown message type, or a body that is too short / long for its type is an
+/// error.
+pub fn read_frame(buf: &[u8], max_len: usize) -> Result<Frame, String> {
+    if buf.len() < BGP_HEADER_LEN {
+        return Err(format!("header: {} byte(s), need 19", buf.len()));
+    }
+    if let Some(i) = buf[..16].iter().position(|b| *b != 0xff) {
+        return Err(format!("header: marker byte {i} is {:#04x}, not 0xff", buf[i]));
+    }
+    let len = u16::from_be_bytes([buf[16], buf[17]]) as usize;
+    let msg_type = buf[18];
+    if len < BGP_HEADER_LEN {
+        return Err(format!("header: length {len} < 19"));
+    }
+    if len > max_len {
+        return Err(format!("header: length {len} exceeds the negotiated maximum {max_len}"));
+    }
+    if len > buf.len() {
+        return Err(format!("header: length {len} but only {} byte(s) present", buf.len()));
+    }
+    let mut fields = vec![fr(0, 16, FieldKind::Marker), fr(16, 2, FieldKind::HeaderLen), fr(18, 1, FieldKind::MsgType)];
+    let frame = &buf[..len];
+    let body_span = Span::new(BGP_HEADER_LEN, len - BGP_HEADER_LEN);
+    let body = match msg_type {
+        MSG_OPEN => Body::Open(read_open(frame, body_span, &mut fields)?),
+        MSG_UPDATE => Body::Update(read_update(frame, body_span, &mut fields)?),
+        MSG_NOTIFICATION => {
+            // RFC 4271 §4.5: code(1) subcode(1) data(*)
+            let mut r = Rd::new(frame, body_span, "NOTIFICATION")?;
+            fields.push(fr(r.pos, 1, FieldKind::NotifCode));
+            let code = r.u8("error code")?;
+            fields.push(fr(r.pos, 1, FieldKind::NotifSubcode));
+            let subcode = r.u8("error subcode")?;
+            Body::Notification { code, subcode, data: r.rest() }
+        }
+        MSG_KEEPALIVE => {
+            // RFC 4271 §4.4: header only
+            if len != BGP_HEADER_LEN {
+                return Err(format!("KEEPALIVE: length {len}, must be 19"));
+            }
+            Body::Keepalive
+        }
+        MSG_ROUTE_REFRESH => {
+            // RFC 2918 §3: exactly 4 bytes (RFC 7313 §5: otherwise NOTIFICATION 7/1)
+            if len != BGP_HEADER_LEN + 4 {
+                return Err(format!("ROUTE-REFRESH: length {len}, must be 23"));
+            }
+            let mut r = Rd::new(frame, body_span, "ROUTE-REFRESH")?;
+            fields.push(fr(r.pos, 2, FieldKind::RrAfi));
+            let afi = r.u16("AFI")?;
+            fields.push(fr(r.pos, 1, FieldKind::RrSubtype));
+            let subtype = r.u8("subtype")?;
+            fields.push(fr(r.pos, 1, FieldKind::RrSafi));
+            let safi = r.u8("SAFI")?;
+            Body::RouteRefresh { afi, subtype, safi }
+        }
+        t => return Err(format!("header: unknown message type {t}")),
+    };
+    Ok(Frame { len, msg_type, body, fields })
+}
+
+/// RFC 4271 §4.2 + RFC 5492 §4 + RFC 9072 §2.
+fn read_open(frame: &[u8], body: Span, fields: &mut Vec<FieldRef>) -> Result<OpenBody, String> {
+    let mut r = Rd::new(frame, body, "OPEN")?;
+    if r.left() < 10 {
+        return Err(format!("OPEN: body of {} byte(s), need at least 10", r.left()));
+    }
+    fields.push(fr(r.pos, 1, FieldKind::OpenVersion));
+    let version = r.u8("version")?;
+    fields.push(fr(r.pos, 2, FieldKind::OpenAs));
+    let my_as = r.u16("my AS")?;
+    fields.push(fr(r.pos, 2, FieldKind::OpenHold));
+    let hold = r.u16("hold time")?;
+    fields.push(fr(r.pos, 4, FieldKind::OpenId));
+    let id = r.u32("BGP identifier")?;
+    fields.push(fr(r.pos, 1, FieldKind::OpenOptLen));
+    let opt_len = r.u8("opt parm len")?;
+    // RFC 9072 §2: opt_len == 255 and the next byte == 255 switch to the extended
+    // format: ext length (2) follows, parameters then use 2-byte lengths.
+    let mut extended = false;
+    let mut total = opt_len as usize;
+    if opt_len == 255 && r.left() >= 1 && frame[r.pos] == 255 {
+        extended = true;
+        fields.push(fr(r.pos, 1, FieldKind::OpenExtMarker));
+        r.u8("non-ext OP type")?;
+        fields.push(fr(r.pos, 2, FieldKind::OpenExtOptLen));
+        total = r.u16("extended opt parm length")? as usize;
+    }
+    if total != r.left() {
+        return Err(format!("OPEN: optional parameters length {total} but {} byte(s) follow", r.left()));
+    }
+    let mut params = Vec::new();
+    let mut caps = Vec::new();
+    while r.left() > 0 {
+        let off = r.pos;
+        fields.push(fr(r.pos, 1, FieldKind::OptParamType));
+        let typ = r.u8("parameter type")?;
+        let plen = if extended {
+            fields.push(fr(r.pos, 2, FieldKind::OptParamLen));
+            r.u16("parameter length")? as usize
+        } else {
+            fields.push(fr(r.pos, 1, FieldKind::OptParamLen));
+            r.u8("parameter length")? as usize
+        };
+        let value = r.take(plen, "parameter value")?;
+        if typ == 2 {
+            // RFC 5492 §4: one or more <code(1), length(1), value>
+            let mut c = Rd::new(frame, value, "OPEN capabilities")?;
+            while c.left() > 0 {
+                let coff = c.pos;
+                fields.push(fr(c.pos, 1, FieldKind::CapCode));
+                let code = c.u8("capability code")?;
+                fields.push(fr(c.pos, 1, FieldKind::CapLen));
+                let clen = c.u8("capability length")? as usize;
+                let cval = c.take(clen, "capability value")?;
+                if code == 73 && clen >= 1 {
+                    // FQDN: hostlen(1) host domainlen(1) domain
+                    fields.push(fr(cval.off, 1, FieldKind::CapInnerLen));
+                    let hl = frame[cval.off] as usize;
+                    if 1 + hl < clen {
+                        fields.push(fr(cval.off + 1 + hl, 1, FieldKind::CapInnerLen));
+                    }
+                }
+                caps.push(Cap { off: coff, code, value: cval });
+            }
+        }
+        params.push(OptParam { off, typ, value });
+    }
+    Ok(OpenBody { version, my_as, hold, id, opt_len, extended, params, caps })
+}
+
+/// RFC 4271 §4.3.
+fn read_update(frame: &[u8], body: Span, fields: &mut Vec<FieldRef>) -> Result<UpdateBody, String> {
+    let mut r = Rd::new(frame, body, "UPDATE")?;
+    fields.push(fr(r.pos, 2, FieldKind::WithdrawnLen));
+    let wlen = r.u16("withdrawn routes length")? as usize;
+    if wlen + 2 > r.left() {
+        return Err(format!("UPDATE: withdrawn routes length {wlen} + 2 exceeds the {} byte(s) left", r.left()));
+    }
+    let withdrawn = r.take(wlen, "withdrawn routes")?;
+    fields.push(fr(r.pos, 2, FieldKind::TotalAttrLen));
+    let alen = r.u16("total path attribute length")? as usize;
+    if alen > r.left() {
+        return Err(format!("UPDATE: total path attribute length {alen} exceeds the {} byte(s) left (withdrawn {wlen})", r.left()));
+    }
+    let attr_block = r.take(alen, "path attributes")?;
+    let nlri = r.rest();
+    let (attrs, afields) = walk_attrs(frame, attr_block)?;
+    fields.extend(afields);
+    let mut mp_reach = None;
+    let mut mp_unreach = None;
+    for (i, a) in attrs.iter().enumerate() {
+        if a.code == ATTR_MP_REACH {
+            if mp_reach.is_some() {
+                return Err("UPDATE: more than one MP_REACH_NLRI".into());
+            }
+            let mut m = parse_mp_reach(frame, a, fields)?;
+            m.attr_index = i;
+            mp_reach = Some(m);
+        } else if a.code == ATTR_MP_UNREACH {
+            if mp_unreach.is_some() {
+                return Err("UPDATE: more than one MP_UNREACH_NLRI".into());
+            }
+            let mut m = parse_mp_unreach(frame, a, fields)?;
+            m.attr_index = i;
+            mp_unreach = Some(m);
+        }
+    }
+    Ok(UpdateBody { withdrawn, attr_block, nlri, attrs, mp_reach, mp_unreach })
+}
+
+/// RFC 4271 §4.3 path attributes: flags(1) type(1) length(1, or 2 if the
+/// extended-length bit 0x10 is set) value.  The block must be consumed exactly.
+pub fn walk_attrs(buf: &[u8], block: Span) -> Result<(Vec<Attr>, Vec<FieldRef>), String> {
+    let mut r = Rd::new(buf, block, "path attributes")?;
+    let mut attrs = Vec::new();
+    let mut fields = Vec::new();
+    while r.left() > 0 {
+        let off = r.pos;
+        fields.push(fr(r.pos, 1, FieldKind::AttrFlags));
+        let flags = r.u8("attribute flags")?;
+        fields.push(fr(r.pos, 1, FieldKind::AttrType));
+        let code = r.u8("attribute type")?;
+        let ext = flags & ATTR_FLAG_EXTENDED != 0;
+        let len = if ext {
+            fields.push(fr(r.pos, 2, FieldKind::AttrExtLen));
+            r.u16("attribute extended length")? as usize
+        } else {
+            fields.push(fr(r.pos, 1, FieldKind::AttrLen));
+            r.u8("attribute length")? as usize
+        };
+        if len > r.left() {
+            return Err(format!("path attributes: attribute type {code} at offset {off} has length {len} but {} byte(s) remain in the block", r.left()));
+        }
+        let value = r.take(len, "attribute value")?;
+        attrs.push(Attr { off, flags, code, ext, value });
+    }
+    Ok((attrs, fields))
+}
+
+/// RFC 4760 §3: AFI(2) SAFI(1) nh-len(1) next hop, reserved(1), NLRI.
+pub fn parse_mp_reach(buf: &[u8], a: &Attr, fields: &mut Vec<FieldRef>) -> Result<MpReach, String> {
+    let mut r = Rd::new(buf, a.value, "MP_REACH_NLRI")?;
+    fields.push(fr(r.pos, 2, FieldKind::MpAfi));
+    let afi = r.u16("AFI")?;
+    fields.push(fr(r.pos, 1, FieldKind::MpSafi));
+    let safi = r.u8("SAFI")?;
+    fields.push(fr(r.pos, 1, FieldKind::MpNhLen));
+    let nh_len = r.u8("next hop length")?;
+    let nexthop = r.take(nh_len as usize, "next hop")?;
+    fields.push(fr(r.pos, 1, FieldKind::MpReserved));
+    let reserved = r.u8("reserved (SNPA count)")?;
+    Ok(MpReach { attr_index: 0, afi, safi, nh_len, nexthop, reserved, nlri: r.rest() })
+}
+
+/// RFC 4760 §4: AFI(2) SAFI(1) withdrawn NLRI.
+pub fn parse_mp_unreach(buf: &[u8], a: &Attr, fields: &mut Vec<FieldRef>) -> Result<MpUnreach, String> {
+    let mut r = Rd::new(buf, a.value, "MP_UNREACH_NLRI")?;
+    fields.push(fr(r.pos, 2, FieldKind::MpAfi));
+    let afi = r.u16("AFI")?;
+    fields.push(fr(r.pos, 1, FieldKind::MpSafi));
+    let safi = r.u8("SAFI")?;
+    Ok(MpUnreach { attr_index: 0, afi, safi, nlri: r.rest() })
+}
+
+// ---------------------------------------------------------------------------
+// NLRI walkers
+// ---------------------------------------------------------------------------
+
+#[derive(Clone, Copy, Debug, PartialEq, Eq, Hash)]
+pub enum NlriKind {
+    /// RFC 4271 §4.3 (SAFI 1, 2)
+    Ipv4,
+    /// RFC 4760 §5 / RFC 2545 (SAFI 1, 2)
+    Ipv6,
+    /// RFC 8277 §2 (SAFI 4)
+    LabeledV4,
+    LabeledV6,
+    /// RFC 4364 §4.3.4 (SAFI 128)
+    VpnV4,
+    /// RFC 4659 §3.2 (SAFI 128)
+    VpnV6,
+    /// RFC 7432 §7 (AFI 25 SAFI 70)
+    Evpn,
+    /// RFC 4684 §4 (AFI 1 SAFI 132)
+    Rtc,
+}
+
+pub fn nlri_kind(afi: u16, safi: u8) -> Option<NlriKind> {
+    match (afi, safi) {
+        (1, 1) | (1, 2) => Some(NlriKind::Ipv4),
+        (2, 1) | (2, 2) => Some(NlriKind::Ipv6),
+        (1, 4) => Some(NlriKind::LabeledV4),
+        (2, 4) => Some(NlriKind::LabeledV6),
+        (1, 128) => Some(NlriKind::VpnV4),
+        (2, 128) => Some(NlriKind::VpnV6),
+        (25, 70) => Some(NlriKind::Evpn),
+        (1, 132) => Some(NlriKind::Rtc),
+        _ => None,
+    }
+}
+
+#[derive(Clone, Copy, Debug, PartialEq, Eq, Hash)]
+pub enum LabelMode {
+    /// labels are read until one has the bottom-of-stack bit (RFC 3107 §3,
+    /// RFC 8277 §2.3; with a single label this is RFC 8277 §2.2)
+    BosTerminated,
+    /// exactly 3 bytes, content ignored: the "compatibility" field of a
+    /// withdrawal (RFC 8277 §2.4, typically 0x800000 or 0x000000)
+    Fixed3,
+}
+
+#[derive(Clone, Copy, Debug, PartialEq, Eq, Hash)]
+pub struct NlriOpts {
+    /// RFC 7911 §3: a 4-byte path identifier precedes every NLRI
+    pub addpath: bool,
+    pub labels: LabelMode,
+}
+
+impl NlriOpts {
+    pub fn reach(addpath: bool) -> NlriOpts {
+        NlriOpts { addpath, labels: LabelMode::BosTerminated }
+    }
+    /// RFC 8277 §2.4 reading of a withdrawal.  NOTE: a sender that repeats the
+    /// advertised label stack in a withdrawal is only read correctly by this mode
+    /// when the stack has one label; use `reach` opts to read "labels as sent".
+    pub fn withdraw(addpath: bool) -> NlriOpts {
+        NlriOpts { addpath, labels: LabelMode::Fixed3 }
+    }
+}
+
+#[derive(Clone, Debug, PartialEq, Eq)]
+pub struct NlriItem {
+    /// the whole entry including the path id
+    pub span: Span,
+    pub path_id: Option<u32>,
+    /// value of the length byte (bits; EVPN: route length in bytes)
+    pub len_field: u16,
+    /// 20-bit label values (Fixed3: the raw 24-bit field >> 4)
+    pub labels: Vec<u32>,
+    pub rd: Option<[u8; 8]>,
+    /// prefix length in bits (after removing labels / RD); RTC: the whole length
+    pub prefix_bits: u16,
+    /// prefix bytes as on the wire: ceil(prefix_bits / 8)
+    pub prefix: Vec<u8>,
+    pub evpn_type: Option<u8>,
+    pub fields: Vec<FieldRef>,
+}
+
+/// Walk the NLRI list in `buf[span]`; the list must be consumed exactly.
+pub fn walk_nlri(kind: NlriKind, opts: NlriOpts, buf: &[u8], span: Span) -> Result<Vec<NlriItem>, String> {
+    let mut r = Rd::new(buf, span, "NLRI")?;
+    let mut out = Vec::new();
+    while r.left() > 0 {
+        let start = r.pos;
+        let mut fields = Vec::new();
+        let path_id = if opts.addpath {
+            fields.push(fr(r.pos, 4, FieldKind::NlriPathId));
+            Some(r.u32("path identifier")?)
+        } else {
+            None
+        };
+        let mut item = NlriItem {
+            span: Span::default(), path_id, len_field: 0, labels: vec![], rd: None,
+            prefix_bits: 0, prefix: vec![], evpn_type: None, fields: vec![],
+        };
+        match kind {
+            NlriKind::Evpn => {
+                // RFC 7432 §7: route type(1) length(1) value
+                fields.push(fr(r.pos, 1, FieldKind::EvpnRouteType));
+                let t = r.u8("EVPN route type")?;
+                fields.push(fr(r.pos, 1, FieldKind::EvpnRouteLen));
+                let l = r.u8("EVPN route length")? as usize;
+                let body = r.bytes(l, "EVPN route")?;
+                // RFC 7432 §7.1-7.4, RFC 9136 §3.1: sizes of the defined route types
+                let ok: &[usize] = match t {
+                    1 => &[25],
+                    2 => &[33, 36, 37, 40, 49, 52],
+                    3 => &[17, 29],
+                    4 => &[23, 35],
+                    5 => &[34, 58],
+                    _ => &[],
+                };
+                if !ok.is_empty() && !ok.contains(&l) {
+                    return Err(format!("NLRI: EVPN route type {t} at offset {start} has length {l}, allowed {ok:?}"));
+                }
+                if (1..=5).contains(&t) {
+                    let mut rd = [0u8; 8];
+                    rd.copy_from_slice(&body[..8]);
+                    item.rd = Some(rd);
+                    // inner length bytes must agree with the route length
+                    let inner = match t {
+                        2 => {
+                            let mac_len = body[22];
+                            let ip_len = body[29] as usize;
+                            if mac_len != 48 {
+                                return Err(format!("NLRI: EVPN type 2 MAC length {mac_len}"));
+                            }
+                            if ![0, 32, 128].contains(&ip_len) || ![33 + ip_len / 8, 36 + ip_len / 8].contains(&l) {
+                                return Err(format!("NLRI: EVPN type 2 IP length {ip_len} does not fit route length {l}"));
+                            }
+                            None
+                        }
+                        3 => Some((body[12] as usize, 13usize)),
+                        4 => Some((body[18] as usize, 19usize)),
+                        5 => {
+                            let pl = body[22] as usize;
+                            if pl > if l == 34 { 32 } else { 128 } {
+                                return Err(format!("NLRI: EVPN type 5 prefix length {pl} with route length {l}"));
+                            }
+                            None
+                        }
+                        _ => None,
+                    };
+                    if let Some((bits, fixed)) = inner {
+                        if ![32, 128].contains(&bits) || fixed + bits / 8 != l {
+                            return Err(format!("NLRI: EVPN type {t} IP length {bits} does not fit route length {l}"));
+                        }
+                    }
+                }
+                item.evpn_type = Some(t);
+                item.len_field = l as u16;
+                item.prefix = body.to_vec();
+            }
+            NlriKind::Rtc => {
+                fields.push(fr(r.pos, 1, FieldKind::NlriLen));
+                let bits = r.u8("RTC prefix length")? as usize;
+                // RFC 4684 §4: 0, or 32..=96
+                if bits != 0 && !(32..=96).contains(&bits) {
+                    return Err(format!("NLRI: RTC prefix length {bits} at offset {start} (must be 0 or 32..96)"));
+                }
+                item.len_field = bits as u16;
+                item.prefix_bits = bits as u16;
+                item.prefix = r.bytes(bits.div_ceil(8), "RTC prefix")?.to_vec();
+            }
+            _ => {
+                fields.push(fr(r.pos, 1, FieldKind::NlriLen));
+                let total_bits = r.u8("NLRI length")? as usize;
+                item.len_field = total_bits as u16;
+                let labeled = !matches!(kind, NlriKind::Ipv4 | NlriKind::Ipv6);
+                let has_rd = matches!(kind, NlriKind::VpnV4 | NlriKind::VpnV6);
+                let max_prefix = if matches!(kind, NlriKind::Ipv4 | NlriKind::LabeledV4 | NlriKind::VpnV4) { 32 } else { 128 };
+                let mut used = 0usize;
+                if labeled {
+                    loop {
+                        if total_bits < used + 24 {
+                            return Err(format!("NLRI: length {total_bits} at offset {start} leaves no room for a label after {used} bits"));
+                        }
+                        let b = r.bytes(3, "label")?;
+                        fields.push(fr(r.pos - 1, 1, FieldKind::LabelBos));
+                        item.labels.push(((b[0] as u32) << 16 | (b[1] as u32) << 8 | b[2] as u32) >> 4);
+                        used += 24;
+                        if opts.labels == LabelMode::Fixed3 || b[2] & 1 == 1 {
+                            break;
+                        }
+                    }
+                }
+                if has_rd {
+                    if total_bits < used + 64 {
+                        return Err(format!("NLRI: length {total_bits} at offset {start} leaves no room for the RD after {used} bits"));
+                    }
+                    let b = r.bytes(8, "route distinguisher")?;
+                    let mut rd = [0u8; 8];
+                    rd.copy_from_slice(b);
+                    item.rd = Some(rd);
+                    used += 64;
+                }
+                let pbits = total_bits - used;
+                if pbits > max_prefix {
+                    return Err(format!("NLRI: prefix length {pbits} at offset {start} exceeds {max_prefix}"));
+                }
+                item.prefix_bits = pbits as u16;
+                item.prefix = r.bytes(pbits.div_ceil(8), "prefix")?.to_vec();
+            }
+        }
+        item.span = Span::new(start, r.pos - start);
+        item.fields = fields;
+        out.push(item);
+    }
+    Ok(out)
+}
+
+/// NLRI-level fields (path ids, length bytes, BoS bytes, EVPN type / length) of
+/// an UPDATE frame for the families `nlri_kind` knows; other families yield
+/// nothing.  Withdrawn / MP_UNREACH lists are read "labels as sent"
+/// (BoS-terminated), which is how this code base writes them.
+pub fn update_nlri_fields(buf: &[u8], frame: &Frame, addpath: bool) -> Result<Vec<FieldRef>, String> {
+    let mut out = Vec::new();
+    if let Body::Update(u) = &frame.body {
+        let o = NlriOpts::reach(addpath);
+        for sp in [u.withdrawn, u.nlri] {
+            for it in walk_nlri(NlriKind::Ipv4, o, buf, sp)? {
+                out.extend(it.fields);
+            }
+        }
+        if let Some(m) = &u.mp_reach {
+            if let Some(k) = nlri_kind(m.afi, m.safi) {
+                for it in walk_nlri(k, o, buf, m.nlri)? {
+                    out.extend(it.fields);
+                }
+            }
+        }
+        if let Some(m) = &u.mp_unreach {
+            if let Some(k) = nlri_kind(m.afi, m.safi) {
+                for it in walk_nlri(k, o, buf, m.nlri)? {
+                    out.extend(it.fields);
+                }
+            }
+        }
+    }
+    Ok(out)
+}
+
+// ---------------------------------------------------------------------------
+// generic TLV streams
+// ---------------------------------------------------------------------------
+
+#[derive(Clone, Debug, PartialEq, Eq)]
+pub struct Tlv {
+    pub off: usize,
+    pub typ: u32,
+    pub value: Span,
+}
+
+/// Walk a TLV stream with `tw`-byte types and `lw`-byte lengths (1 or 2 each):
+/// BGP-LS NLRI / attribute (RFC 9552 §5.1: 2/2), Prefix-SID (RFC 8669 §3: 1/2),
+/// Tunnel Encapsulation outer TLVs (RFC 9012 §2: 2/2), BMP information TLVs
+/// (RFC 7854 §4.4: 2/2).  The stream must be consumed exactly.
+pub fn walk_tlvs(buf: &[u8], span: Span, tw: usize, lw: usize, fields: &mut Vec<FieldRef>) -> Result<Vec<Tlv>, String> {
+    walk_tlvs_k(buf, span, tw, lw, FieldKind::TlvType, FieldKind::TlvLen, fields)
+}
+
+fn walk_tlvs_k(buf: &[u8], span: Span, tw: usize, lw: usize, kt: FieldKind, kl: FieldKind, fields: &mut Vec<FieldRef>) -> Result<Vec<Tlv>, String> {
+    if !(1..=2).contains(&tw) || !(1..=2).contains(&lw) {
+        return Err("TLV: widths must be 1 or 2".into());
+    }
+    let mut r = Rd::new(buf, span, "TLV")?;
+    let mut out = Vec::new();
+    while r.left() > 0 {
+        let off = r.pos;
+        fields.push(fr(r.pos, tw, kt));
+        let typ = if tw == 1 { r.u8("type")? as u32 } else { r.u16("type")? as u32 };
+        fields.push(fr(r.pos, lw, kl));
+        let len = if lw == 1 { r.u8("length")? as usize } else { r.u16("length")? as usize };
+        if len > r.left() {
+            return Err(format!("TLV: type {typ} at offset {off} has length {len} but {} byte(s) remain", r.left()));
+        }
+        let value = r.take(len, "value")?;
+        out.push(Tlv { off, typ, value });
+    }
+    Ok(out)
+}
+
+// ===========================================================================
+// BMP (RFC 7854, RFC 8671, RFC 9069)
+// ===========================================================================
+
+pub const BMP_ROUTE_MONITORING: u8 = 0;
+pub const BMP_STATS_REPORT: u8 = 1;
+pub const BMP_PEER_DOWN: u8 = 2;
+pub const BMP_PEER_UP: u8 = 3;
+pub const BMP_INITIATION: u8 = 4;
+pub const BMP_TERMINATION: u8 = 5;
+pub const BMP_ROUTE_MIRRORING: u8 = 6;
+
+/// RFC 7854 §4.2 per-peer header (42 bytes).
+#[derive(Clone, Debug, PartialEq, Eq)]
+pub struct BmpPerPeer {
+    /// 0 global, 1 RD, 2 local, 3 Loc-RIB (RFC 9069 §4.1)
+    pub peer_type: u8,
+    pub flags: u8,
+    pub distinguisher: u64,
+    /// 16 bytes; IPv4 in the last 4 with 12 leading zero bytes
+    pub address: [u8; 16],
+    pub asn: u32,
+    pub bgp_id: u32,
+    pub ts_sec: u32,
+    pub ts_usec: u32,
+}
+
+impl BmpPerPeer {
+    /// V flag (0x80): the peer address is IPv6.  (Peer type 3 redefines bit 0x80
+    /// as F "filtered", RFC 9069 §4.2, and has no address.)
+    pub fn v_flag(&self) -> bool {
+        self.peer_type != 3 && self.flags & 0x80 != 0
+    }
+    /// L flag (0x40): post-policy Adj-RIB-In
+    pub fn l_flag(&self) -> bool {
+        self.peer_type != 3 && self.flags & 0x40 != 0
+    }
+    /// A flag (0x20): legacy 2-byte AS_PATH format
+    pub fn a_flag(&self) -> bool {
+        self.peer_type != 3 && self.flags & 0x20 != 0
+    }
+    /// O flag (0x10): Adj-RIB-Out (RFC 8671 §4)
+    pub fn o_flag(&self) -> bool {
+        self.peer_type != 3 && self.flags & 0x10 != 0
+    }
+    pub fn address_is_v4_form(&self) -> bool {
+        self.address[..12].iter().all(|b| *b == 0)
+    }
+}
+
+#[derive(Clone, Debug)]
+pub enum BmpBody {
+    /// RFC 7854 §4.6: per-peer header + ONE BGP UPDATE PDU.  `pdus` lists every
+    /// BGP frame found in the remainder so that the caller can check "exactly one".
+    RouteMonitoring { pdus: Vec<Span> },
+    /// RFC 7854 §4.8: count(4) then count x <type(2) len(2) value>
+    StatsReport { count: u32, stats: Vec<Tlv> },
+    /// RFC 7854 §4.9; reason 1/3: NOTIFICATION PDU, 2: FSM event code(2), 4/5: none,
+    /// 6 (RFC 9069 §5.3): information TLVs
+    PeerDown { reason: u8, notification: Option<Span>, fsm_code: Option<u16>, tlvs: Vec<Tlv> },
+    /// RFC 7854 §4.10
+    PeerUp { local_addr: [u8; 16], local_port: u16, remote_port: u16, sent_open: Span, recv_open: Span, info: Vec<Tlv> },
+    /// RFC 7854 §4.3 / §4.5 / §4.7: information TLVs
+    Initiation { tlvs: Vec<Tlv> },
+    Termination { tlvs: Vec<Tlv> },
+    RouteMirroring { tlvs: Vec<Tlv> },
+}
+
+#[derive(Clone, Debug)]
+pub struct BmpMsg {
+    pub version: u8,
+    /// common-header length = size of the whole message
+    pub length: usize,
+    pub msg_type: u8,
+    pub per_peer: Option<BmpPerPeer>,
+    pub body: BmpBody,
+    pub fields: Vec<FieldRef>,
+}
+
+fn bgp_frame_at(buf: &[u8], r: &mut Rd, what: &str, want_type: Option<u8>) -> Result<Span, String> {
+    if r.left() < BGP_HEADER_LEN {
+        return Err(format!("{}: {what}: {} byte(s) left, shorter than a BGP header", r.what, r.left()));
+    }
+    let p = r.pos;
+    if buf[p..p + 16].iter().any(|b| *b != 0xff) {
+        return Err(format!("{}: {what} at offset {p}: BGP marker is not all ones", r.what));
+    }
+    let len = u16::from_be_bytes([buf[p + 16], buf[p + 17]]) as usize;
+    if len < BGP_HEADER_LEN || len > r.left() {
+        return Err(format!("{}: {what} at offset {p}: BGP length {len} does not fit the {} byte(s) left", r.what, r.left()));
+    }
+    if let Some(t) = want_type {
+        if buf[p + 18] != t {
+            return Err(format!("{}: {what} at offset {p}: BGP message type {} where {t} is required", r.what, buf[p + 18]));
+        }
+    }
+    r.take(len, what)
+}
+
+/// Read the BMP message that starts at buf[0] (bytes after it are ignored).
+pub fn read_bmp(buf: &[u8]) -> Result<BmpMsg, String> {
+    // RFC 7854 §4.1 common header: version(1) length(4) type(1)
+    if buf.len() < 6 {
+        return Err(format!("BMP: {} byte(s), common header needs 6", buf.len()));
+    }
+    let mut fields = vec![fr(0, 1, FieldKind::BmpVersion), fr(1, 4, FieldKind::BmpLen), fr(5, 1, FieldKind::BmpType)];
+    let version = buf[0];
+    if version != 3 {
+        return Err(format!("BMP: version {version}, expected 3"));
+    }
+    let length = u32::from_be_bytes([buf[1], buf[2], buf[3], buf[4]]) as usize;
+    let msg_type = buf[5];
+    if length < 6 {
+        return Err(format!("BMP: message length {length} < 6"));
+    }
+    if length > buf.len() {
+        return Err(format!("BMP: message length {length} but only {} byte(s) present", buf.len()));
+    }
+    let mut r = Rd::new(buf, Span::new(6, length - 6), "BMP")?;
+    let has_peer = matches!(msg_type, BMP_ROUTE_MONITORING | BMP_STATS_REPORT | BMP_PEER_DOWN | BMP_PEER_UP | BMP_ROUTE_MIRRORING);
+    let per_peer = if has_peer {
+        if r.left() < 42 {
+            return Err(format!("BMP: type {msg_type} needs a 42-byte per-peer header, {} byte(s) follow the common header", r.left()));
+        }
+        fields.push(fr(r.pos, 1, FieldKind::BmpPeerType));
+        let peer_type = r.u8("peer type")?;
+        fields.push(fr(r.pos, 1, FieldKind::BmpPeerFlags));
+        let flags = r.u8("peer flags")?;
+        let distinguisher = r.u64("peer distinguisher")?;
+        let mut address = [0u8; 16];
+        address.copy_from_slice(r.bytes(16, "peer address")?);
+        let p = BmpPerPeer {
+            peer_type, flags, distinguisher, address,
+            asn: r.u32("peer AS")?, bgp_id: r.u32("peer BGP ID")?,
+            ts_sec: r.u32("timestamp seconds")?, ts_usec: r.u32("timestamp microseconds")?,
+        };
+        if peer_type > 3 {
+            return Err(format!("BMP: per-peer header: unknown peer type {peer_type}"));
+        }
+        // RFC 7854 §4.2: an IPv4 address is stored in the last 4 bytes, the rest zero
+        if peer_type != 3 && !p.v_flag() && !p.address_is_v4_form() {
+            return Err("BMP: per-peer header: V flag clear but the first 12 address bytes are not zero".into());
+        }
+        if peer_type == 3 && address != [0u8; 16] {
+            return Err("BMP: per-peer header: Loc-RIB peer with a non-zero peer address (RFC 9069 §4.1)".into());
+        }
+        Some(p)
+    } else {
+        None
+    };
+    let body = match msg_type {
+        BMP_ROUTE_MONITORING => {
+            let mut pdus = Vec::new();
+            if r.left() == 0 {
+                return Err("BMP: Route Monitoring without a BGP PDU".into());
+            }
+            while r.left() > 0 {
+                pdus.push(bgp_frame_at(buf, &mut r, "Route Monitoring PDU", Some(MSG_UPDATE))?);
+            }
+            BmpBody::RouteMonitoring { pdus }
+        }
+        BMP_STATS_REPORT => {
+            fields.push(fr(r.pos, 4, FieldKind::MrtCount));
+            let count = r.u32("stats count")?;
+            let rest = r.rest();
+            let stats = walk_tlvs_k(buf, rest, 2, 2, FieldKind::BmpTlvType, FieldKind::BmpTlvLen, &mut fields)?;
+            if stats.len() != count as usize {
+                return Err(format!("BMP: Stats Report count {count} but {} TLV(s) present", stats.len()));
+            }
+            BmpBody::StatsReport { count, stats }
+        }
+        BMP_PEER_DOWN => {
+            fields.push(fr(r.pos, 1, FieldKind::BmpReason));
+            let reason = r.u8("peer down reason")?;
+            let (mut notification, mut fsm_code, mut tlvs) = (None, None, Vec::new());
+            match reason {
+                1 | 3 => {
+                    notification = Some(bgp_frame_at(buf, &mut r, "Peer Down NOTIFICATION", Some(MSG_NOTIFICATION))?);
+                }
+                2 => fsm_code = Some(r.u16("FSM event code")?),
+                4 | 5 => {}
+                6 => {
+                    let rest = r.rest();
+                    tlvs = walk_tlvs_k(buf, rest, 2, 2, FieldKind::BmpTlvType, FieldKind::BmpTlvLen, &mut fields)?;
+                }
+                x => return Err(format!("BMP: Peer Down reason {x} is not defined")),
+            }
+            if r.left() != 0 {
+                return Err(format!("BMP: Peer Down reason {reason}: {} unexpected trailing byte(s)", r.left()));
+            }
+            BmpBody::PeerDown { reason, notification, fsm_code, tlvs }
+        }
+        BMP_PEER_UP => {
+            let mut local_addr = [0u8; 16];
+            local_addr.copy_from_slice(r.bytes(16, "local address")?);
+            let local_port = r.u16("local port")?;
+            let remote_port = r.u16("remote port")?;
+            let sent_open = bgp_frame_at(buf, &mut r, "Peer Up sent OPEN", Some(MSG_OPEN))?;
+            let recv_open = bgp_frame_at(buf, &mut r, "Peer Up received OPEN", Some(MSG_OPEN))?;
+            let rest = r.rest();
+            let info = walk_tlvs_k(buf, rest, 2, 2, FieldKind::BmpTlvType, FieldKind::BmpTlvLen, &mut fields)?;
+            BmpBody::PeerUp { local_addr, local_port, remote_port, sent_open, recv_open, info }
+        }
+        BMP_INITIATION | BMP_TERMINATION | BMP_ROUTE_MIRRORING => {
+            let rest = r.rest();
+            let tlvs = walk_tlvs_k(buf, rest, 2, 2, FieldKind::BmpTlvType, FieldKind::BmpTlvLen, &mut fields)?;
+            match msg_type {
+                BMP_INITIATION => BmpBody::Initiation { tlvs },
+                BMP_TERMINATION => BmpBody::Termination { tlvs },
+                _ => BmpBody::RouteMirroring { tlvs },
+            }
+        }
+        t => return Err(format!("BMP: unknown message type {t}")),
+    };
+    Ok(BmpMsg { version, length, msg_type, per_peer, body, fields })
+}
+
+// ===========================================================================
+// MRT (RFC 6396, RFC 8050)
+// ===========================================================================
+
+pub const MRT_TABLE_DUMP_V2: u16 = 13;
+pub const MRT_BGP4MP: u16 = 16;
+pub const MRT_BGP4MP_ET: u16 = 17;
+
+#[derive(Clone, Debug)]
+pub struct MrtPeerEntry {
+    /// bit 0: IPv6 address, bit 1: 4-byte AS (RFC 6396 §4.3.1)
+    pub peer_type: u8,
+    pub bgp_id: u32,
+    pub addr: Vec<u8>,
+    pub asn: u32,
+}
+
+#[derive(Clone, Debug)]
+pub struct MrtRibEntry {
+    pub peer_index: u16,
+    pub originated: u32,
+    /// RFC 8050 §4.1 (ADDPATH subtypes only)
+    pub path_id: Option<u32>,
+    pub attr_block: Span,
+    pub attrs: Vec<Attr>,
+}
+
+#[derive(Clone, Debug)]
+pub enum MrtBody {
+    /// RFC 6396 §4.4.2 / §4.4.3 (+ _LOCAL §4.4.5/6, + _ADDPATH RFC 8050 §3)
+    Bgp4mpMessage {
+        as4: bool,
+        local: bool,
+        addpath: bool,
+        peer_as: u32,
+        local_as: u32,
+        ifindex: u16,
+        afi: u16,
+        peer_ip: Vec<u8>,
+        local_ip: Vec<u8>,
+        /// the BGP message (exactly one frame filling the rest of the record)
+        pdu: Span,
+    },
+    /// RFC 6396 §4.4.1 / §4.4.4
+    Bgp4mpStateChange { as4: bool, peer_as: u32, local_as: u32, ifindex: u16, afi: u16, peer_ip: Vec<u8>, local_ip: Vec<u8>, old_state: u16, new_state: u16 },
+    /// RFC 6396 §4.3.1
+    PeerIndexTable { collector_id: u32, view_name: Span, peers: Vec<MrtPeerEntry> },
+    /// RFC 6396 §4.3.2 (subtypes 2-5), RFC 8050 §4.1 (subtypes 8-11)
+    Rib { afi: u16, safi: u8, addpath: bool, seq: u32, prefix_bits: u8, prefix: Vec<u8>, entries: Vec<MrtRibEntry> },
+    /// any other type / subtype: body not interpreted
+    Other,
+}
+
+#[derive(Clone, Debug)]
+pub struct MrtRecord {
+    pub timestamp: u32,
+    pub mrt_type: u16,
+    pub subtype: u16,
+    /// header length field = bytes after the 12-byte common header
+    pub length: usize,
+    /// RFC 6396 §3: extended timestamp types carry 4 more bytes (inside `length`)
+    pub microseconds: Option<u32>,
+    pub body: MrtBody,
+    pub fields: Vec<FieldRef>,
+}
+
+impl MrtRecord {
+    pub fn total_len(&self) -> usize {
+        12 + self.length
+    }
+}
+
+/// Read the MRT record that starts at buf[0] (bytes after it are ignored).
+pub fn read_mrt(buf: &[u8]) -> Result<MrtRecord, String> {
+    // RFC 6396 §2: timestamp(4) type(2) subtype(2) length(4)
+    if buf.len() < 12 {
+        return Err(format!("MRT: {} byte(s), common header needs 12", buf.len()));
+    }
+    let mut fields = vec![fr(4, 2, FieldKind::MrtType), fr(6, 2, FieldKind::MrtSubtype), fr(8, 4, FieldKind::MrtLen)];
+    let timestamp = u32::from_be_bytes([buf[0], buf[1], buf[2], buf[3]]);
+    let mrt_type = u16::from_be_bytes([buf[4], buf[5]]);
+    let subtype = u16::from_be_bytes([buf[6], buf[7]]);
+    let length = u32::from_be_bytes([buf[8], buf[9], buf[10], buf[11]]) as usize;
+    if length > buf.len() - 12 {
+        return Err(format!("MRT: record length {length} but only {} byte(s) follow the header", buf.len() - 12));
+    }
+    let mut r = Rd::new(buf, Span::new(12, length), "MRT")?;
+    let microseconds = if mrt_type == MRT_BGP4MP_ET { Some(r.u32("microsecond timestamp")?) } else { None };
+    let body = match (mrt_type, subtype) {
+        (MRT_BGP4MP | MRT_BGP4MP_ET, 0 | 1 | 4..=11) => {
+            let as4 = matches!(subtype, 4 | 5 | 7 | 9 | 11);
+            let local = matches!(subtype, 6 | 7 | 10 | 11);
+            let addpath = matches!(subtype, 8..=11);
+            let (peer_as, local_as) = if as4 {
+                (r.u32("peer AS")?, r.u32("local AS")?)
+            } else {
+                (r.u16("peer AS")? as u32, r.u16("local AS")? as u32)
+            };
+            let ifindex = r.u16("interface index")?;
+            fields.push(fr(r.pos, 2, FieldKind::MrtAfi));
+            let afi = r.u16("address family")?;
+            let alen = match afi {
+                1 => 4,
+                2 => 16,
+                x => return Err(format!("MRT: BGP4MP address family {x} (must be 1 or 2)")),
+            };
+            let peer_ip = r.bytes(alen, "peer IP address")?.to_vec();
+            let local_ip = r.bytes(alen, "local IP address")?.to_vec();
+            if matches!(subtype, 0 | 5) {
+                let old_state = r.u16("old state")?;
+                let new_state = r.u16("new state")?;
+                if r.left() != 0 {
+                    return Err(format!("MRT: BGP4MP_STATE_CHANGE: {} trailing byte(s)", r.left()));
+                }
+                MrtBody::Bgp4mpStateChange { as4, peer_as, local_as, ifindex, afi, peer_ip, local_ip, old_state, new_state }
+            } else {
+                let pdu = bgp_frame_at(buf, &mut r, "BGP4MP message", None)?;
+                if r.left() != 0 {
+                    return Err(format!("MRT: BGP4MP message: {} byte(s) after the BGP message (a record carries exactly one)", r.left()));
+                }
+                MrtBody::Bgp4mpMessage { as4, local, addpath, peer_as, local_as, ifindex, afi, peer_ip, local_ip, pdu }
+            }
+        }
+        (MRT_TABLE_DUMP_V2, 1) => {
+            let collector_id = r.u32("collector BGP ID")?;
+            fields.push(fr(r.pos, 2, FieldKind::MrtViewNameLen));
+            let vlen = r.u16("view name length")? as usize;
+            let view_name = r.take(vlen, "view name")?;
+            fields.push(fr(r.pos, 2, FieldKind::MrtCount));
+            let count = r.u16("peer count")?;
+            let mut peers = Vec::new();
+            for i in 0..count {
+                fields.push(fr(r.pos, 1, FieldKind::MrtPeerType));
+                let peer_type = r.u8("peer type")?;
+                if peer_type & !3 != 0 {
+                    return Err(format!("MRT: PEER_INDEX_TABLE entry {i}: peer type {peer_type:#x} has undefined bits"));
+                }
+                let bgp_id = r.u32("peer BGP ID")?;
+                let addr = r.bytes(if peer_type & 1 != 0 { 16 } else { 4 }, "peer IP address")?.to_vec();
+                let asn = if peer_type & 2 != 0 { r.u32("peer AS")? } else { r.u16("peer AS")? as u32 };
+                peers.push(MrtPeerEntry { peer_type, bgp_id, addr, asn });
+            }
+            if r.left() != 0 {
+                return Err(format!("MRT: PEER_INDEX_TABLE: {} byte(s) after {count} peer entries", r.left()));
+            }
+            MrtBody::PeerIndexTable { collector_id, view_name, peers }
+        }
+        (MRT_TABLE_DUMP_V2, 2..=5 | 8..=11) => {
+            let addpath = subtype >= 8;
+            let (afi, safi) = match subtype {
+                2 | 8 => (1u16, 1u8),
+                3 | 9 => (1, 2),
+                4 | 10 => (2, 1),
+                _ => (2, 2),
+            };
+            let seq = r.u32("sequence number")?;
+            fields.push(fr(r.pos, 1, FieldKind::MrtPrefixLen));
+            let prefix_bits = r.u8("prefix length")?;
+            if prefix_bits as usize > if afi == 1 { 32 } else { 128 } {
+                return Err(format!("MRT: RIB prefix length {prefix_bits} too long for AFI {afi}"));
+            }
+            let prefix = r.bytes((prefix_bits as usize).div_ceil(8), "prefix")?.to_vec();
+            fields.push(fr(r.pos, 2, FieldKind::MrtCount));
+            let count = r.u16("entry count")?;
+            let mut entries = Vec::new();
+            for i in 0..count {
+                let peer_index = r.u16("peer index")?;
+                let originated = r.u32("originated time")?;
+                let path_id = if addpath { Some(r.u32("path identifier")?) } else { None };
+                fields.push(fr(r.pos, 2, FieldKind::MrtAttrLen));
+                let alen = r.u16("attribute length")? as usize;
+                if alen > r.left() {
+                    return Err(format!("MRT: RIB entry {i}: attribute length {alen} but {} byte(s) remain", r.left()));
+                }
+                let attr_block = r.take(alen, "attributes")?;
+                let (attrs, af) = walk_attrs(buf, attr_block).map_err(|e| format!("MRT: RIB entry {i}: {e}"))?;
+                fields.extend(af);
+                entries.push(MrtRibEntry { peer_index, originated, path_id, attr_block, attrs });
+            }
+            if r.left() != 0 {
+                return Err(format!("MRT: RIB record: {} byte(s) after {count} entries", r.left()));
+            }
+            MrtBody::Rib { afi, safi, addpath, seq, prefix_bits, prefix, entries }
+        }
+        _ => MrtBody::Other,
+    };
+    Ok(MrtRecord { timestamp, mrt_type, subtype, length, microseconds, body, fields })
+}
+
+/// RFC 6396 §4.3.4: inside TABLE_DUMP_V2 RIB entries MP_REACH_NLRI is
+/// abbreviated to <next hop length(1), next hop>.  Returns the next hop bytes.
+pub fn mrt_mp_reach_nexthop(buf: &[u8], a: &Attr) -> Result<Span, String> {
+    let mut r = Rd::new(buf, a.value, "MRT MP_REACH_NLRI")?;
+    let n = r.u8("next hop length")? as usize;
+    let nh = r.take(n, "next hop")?;
+    if r.left() != 0 {
+        return Err(format!("MRT MP_REACH_NLRI: {} byte(s) after the next hop (the abbreviated form has none)", r.left()));
+    }
+    Ok(nh)
+}
+
+// ===========================================================================
+// RTR (RFC 6810 version 0, RFC 8210 version 1, 8210bis version 2)
+// ===========================================================================
+
+#[derive(Clone, Debug, PartialEq, Eq)]
+pub enum RtrBody {
+    SerialNotify { session_id: u16, serial: u32 },
+    SerialQuery { session_id: u16, serial: u32 },
+    ResetQuery,
+    CacheResponse { session_id: u16 },
+    Ipv4Prefix { flags: u8, prefix_len: u8, max_len: u8, prefix: [u8; 4], asn: u32 },
+    Ipv6Prefix { flags: u8, prefix_len: u8, max_len: u8, prefix: [u8; 16], asn: u32 },
+    /// version 0: no intervals
+    EndOfData { session_id: u16, serial: u32, intervals: Option<(u32, u32, u32)> },
+    CacheReset,
+    RouterKey { flags: u8, ski: [u8; 20], asn: u32, spki: Span },
+    ErrorReport { code: u16, pdu: Span, text: Span },
+    Aspa { flags: u8, customer: u32, providers: Vec<u32> },
+}
+
+#[derive(Clone, Debug)]
+pub struct RtrPdu {
+    pub version: u8,
+    pub pdu_type: u8,
+    /// bytes 2..4 of the header as found (session id / error code / flags+zero)
+    pub hdr16: u16,
+    /// header length field = size of the whole PDU
+    pub length: usize,
+    pub body: RtrBody,
+    pub fields: Vec<FieldRef>,
+}
+
+/// Fixed total PDU length per type (RFC 8210 §5.2-5.9), None for variable ones.
+pub fn rtr_fixed_len(version: u8, pdu_type: u8) -> Option<u32> {
+    match pdu_type {
+        0 | 1 => Some(12),
+        2 | 3 | 8 => Some(8),
+        4 => Some(20),
+        6 => Some(32),
+        7 => Some(if version == 0 { 12 } else { 24 }),
+        _ => None,
+    }
+}
+
+/// Read the RTR PDU that starts at buf[0] (bytes after it are ignored).
+pub fn read_rtr(buf: &[u8]) -> Result<RtrPdu, String> {
+    // RFC 8210 §5.1: version(1) type(1) session/error/zero(2) length(4)
+    if buf.len() < 8 {
+        return Err(format!("RTR: {} byte(s), header needs 8", buf.len()));
+    }
+    let mut fields = vec![fr(0, 1, FieldKind::RtrVersion), fr(1, 1, FieldKind::RtrType), fr(4, 4, FieldKind::RtrLen)];
+    let version = buf[0];
+    let pdu_type = buf[1];
+    let hdr16 = u16::from_be_bytes([buf[2], buf[3]]);
+    let length = u32::from_be_bytes([buf[4], buf[5], buf[6], buf[7]]) as usize;
+    if version > 2 {
+        return Err(format!("RTR: version {version} (defined: 0, 1, 2)"));
+    }
+    if length < 8 {
+        return Err(format!("RTR: length {length} < 8"));
+    }
+    if length > buf.len() {
+        return Err(format!("RTR: length {length} but only {} byte(s) present", buf.len()));
+    }
+    if let Some(want) = rtr_fixed_len(version, pdu_type) {
+        if length != want as usize {
+            return Err(format!("RTR: PDU type {pdu_type} version {version} has length {length}, must be {want}"));
+        }
+    }
+    let zero_hdr = |name: &str| -> Result<(), String> {
+        if hdr16 != 0 { Err(format!("RTR: {name}: header bytes 2-3 are {hdr16:#06x}, must be zero")) } else { Ok(()) }
+    };
+    let mut r = Rd::new(buf, Span::new(8, length - 8), "RTR")?;
+    let body = match pdu_type {
+        0 => RtrBody::SerialNotify { session_id: hdr16, serial: r.u32("serial number")? },
+        1 => RtrBody::SerialQuery { session_id: hdr16, serial: r.u32("serial number")? },
+        2 => {
+            zero_hdr("Reset Query")?;
+            RtrBody::ResetQuery
+        }
+        3 => RtrBody::CacheResponse { session_id: hdr16 },
+        4 | 6 => {
+            zero_hdr("IP Prefix")?;
+            let flags = r.u8("flags")?;
+            let prefix_len = r.u8("prefix length")?;
+            let max_len = r.u8("max length")?;
+            let z = r.u8("zero")?;
+            let top = if pdu_type == 4 { 32 } else { 128 };
+            if z != 0 {
+                return Err(format!("RTR: IP Prefix: zero byte is {z:#04x}"));
+            }
+            if flags & !1 != 0 {
+                return Err(format!("RTR: IP Prefix: flags {flags:#04x} has undefined bits"));
+            }
+            // RFC 8210 §5.6: prefix length <= max length <= 32 / 128
+            if prefix_len > max_len || max_len > top {
+                return Err(format!("RTR: IP Prefix: prefix length {prefix_len}, max length {max_len}, address size {top}"));
+            }
+            if pdu_type == 4 {
+                let mut prefix = [0u8; 4];
+                prefix.copy_from_slice(r.bytes(4, "IPv4 prefix")?);
+                RtrBody::Ipv4Prefix { flags, prefix_len, max_len, prefix, asn: r.u32("AS number")? }
+            } else {
+                let mut prefix = [0u8; 16];
+                prefix.copy_from_slice(r.bytes(16, "IPv6 prefix")?);
+                RtrBody::Ipv6Prefix { flags, prefix_len, max_len, prefix, asn: r.u32("AS number")? }
+            }
+        }
+        7 => {
+            let serial = r.u32("serial number")?;
+            let intervals = if version == 0 {
+                None
+            } else {
+                Some((r.u32("refresh interval")?, r.u32("retry interval")?, r.u32("expire interval")?))
+            };
+            RtrBody::EndOfData { session_id: hdr16, serial, intervals }
+        }
+        8 => {
+            zero_hdr("Cache Reset")?;
+            RtrBody::CacheReset
+        }
+        9 => {
+            // RFC 8210 §5.10: flags(1) zero(1) | SKI(20) AS(4) SPKI(*)
+            if version == 0 {
+                return Err("RTR: Router Key PDU in version 0".into());
+            }
+            let mut ski = [0u8; 20];
+            ski.copy_from_slice(r.bytes(20, "subject key identifier")?);
+            let asn = r.u32("AS number")?;
+            RtrBody::RouterKey { flags: (hdr16 >> 8) as u8, ski, asn, spki: r.rest() }
+        }
+        10 => {
+            // RFC 8210 §5.11: len(4) erroneous PDU, len(4) text
+            fields.push(fr(r.pos, 4, FieldKind::RtrInnerLen));
+            let plen = r.u32("length of encapsulated PDU")? as usize;
+            if plen > r.left() {
+                return Err(format!("RTR: Error Report: encapsulated PDU length {plen} but {} byte(s) remain", r.left()));
+            }
+            let pdu = r.take(plen, "encapsulated PDU")?;
+            fields.push(fr(r.pos, 4, FieldKind::RtrInnerLen));
+            let tlen = r.u32("length of error text")? as usize;
+            if tlen != r.left() {
+                return Err(format!("RTR: Error Report: error text length {tlen} but {} byte(s) remain", r.left()));
+            }
+            RtrBody::ErrorReport { code: hdr16, pdu, text: r.rest() }
+        }
+        11 => {
+            // 8210bis §5.12: flags(1) zero(1) | customer AS(4) provider AS(4)*
+            if version < 2 {
+                return Err(format!("RTR: ASPA PDU in version {version}"));
+            }
+            let customer = r.u32("customer AS")?;
+            if r.left() % 4 != 0 {
+                return Err(format!("RTR: ASPA: {} byte(s) of provider ASes is not a multiple of 4", r.left()));
+            }
+            let mut providers = Vec::new();
+            while r.left() > 0 {
+                providers.push(r.u32("provider AS")?);
+            }
+            RtrBody::Aspa { flags: (hdr16 >> 8) as u8, customer, providers }
+        }
+        t => return Err(format!("RTR: unknown PDU type {t}")),
+    };
+    if r.left() != 0 {
+        return Err(format!("RTR: PDU type {pdu_type}: {} unread byte(s) inside the PDU", r.left()));
+    }
+    Ok(RtrPdu { version, pdu_type, hdr16, length, body, fields })
+}
